@@ -642,11 +642,48 @@ def bool_switch(body, b):
     return None
 
 
+def discr_switch(body, b):
+    """`match opt { None => .., Some(..) => .. }` / `let Some(x) = opt else {..}` / `if let Ok(..) = res`: a switch on the discriminant of an
+    Option or Result local is the same test as is_none() / is_ok(): kind 'is_none' (true == None) resp. 'is_ok' (true == Ok)"""
+    t = body.term(b)
+    if t["k"] != "switch":
+        return None
+    l = op_local(t["on"])
+    if l is None:
+        return None
+    defs = [d for d in body.defs.get(l, []) if d[1] == "assign"]
+    if len(defs) != 1 or "discr" not in defs[0][2]["rv"]:
+        return None
+    pl = defs[0][2]["rv"]["discr"]
+    if pl["proj"]:
+        return None
+    head = body.ty(pl["local"])["head"]
+    if head.endswith("option::Option"):
+        kind, zero_is_true = "is_none", True
+    elif head.endswith("result::Result"):
+        kind, zero_is_true = "is_ok", True
+    else:
+        return None
+    tg = {int(v): blk for v, blk in t["targets"]}
+    other = t["otherwise"]
+    # an `otherwise` that is just `unreachable` does not count as an edge
+    def live(blk):
+        return blk is not None and body.term(blk)["k"] != "unreachable"
+    zero = tg.get(0, other if (0 not in tg and live(other)) else None)
+    one = tg.get(1, other if (1 not in tg and live(other)) else None)
+    if zero is None or one is None:
+        return None
+    return dict(kind=kind, arg=pl["local"], true=zero if zero_is_true else one, false=one if zero_is_true else zero, local=l)
+
+
 def cond_of(body, b):
     """Normalise the condition tested by the switch ending block b.
     returns dict(kind=..., true=block, false=block, ...) or None.
     kinds: 'is_null' (arg local), 'ptr_eq' (a,b locals; true == pointers equal), 'bool' (local),
            'call' (Call; true == call returned true)"""
+    ds = discr_switch(body, b)
+    if ds is not None:
+        return ds
     bs = bool_switch(body, b)
     if bs is None:
         return None
